@@ -1316,6 +1316,7 @@ let rec crun_thread roll st i fuel =
 let cpc_at (point : string) (p : (cq, string) pc0) (rolled : bool) : bool =
   match point, p with
   | "publish.written", P2 _ -> true
+  | "publish.message", P2 _ -> true   (* file writes are invisible: the same model state *)
   | "publish.rolled", P2 _ -> rolled
   | "delete.found", D2 _ -> true
   | "delete.synced", D3 _ -> true
